@@ -29,7 +29,15 @@ type wireResp struct {
 
 // rawExchange writes the request bytes and parses the response without any transparent decoding.
 func rawExchange(addr string, reqBytes []byte, method string, timeout time.Duration) wireResp {
+	return rawExchangeP(addr, reqBytes, method, timeout, nil)
+}
+
+// rawExchangeP additionally reports the number of body bytes received so far (arrival of flushed segments)
+func rawExchangeP(addr string, reqBytes []byte, method string, timeout time.Duration, progress func(n int)) wireResp {
 	var out wireResp
+	if progress == nil {
+		progress = func(int) {}
+	}
 	conn, err := net.DialTimeout("tcp", addr, timeout)
 	if err != nil {
 		out.Err = err.Error()
@@ -110,15 +118,26 @@ func rawExchange(addr string, reqBytes []byte, method string, timeout time.Durat
 			}
 			out.Body = append(out.Body, buf...)
 			out.Segments = append(out.Segments, len(out.Body))
+			progress(len(out.Body))
 			br.ReadString('\n')
 		}
 	case out.Header.Get("Content-Length") != "":
 		out.Framing = "cl"
 		n, _ := strconv.Atoi(out.Header.Get("Content-Length"))
 		buf := make([]byte, n)
-		m, err := io.ReadFull(br, buf)
+		m := 0
+		for m < n {
+			k, err := br.Read(buf[m:])
+			m += k
+			if k > 0 {
+				progress(m)
+			}
+			if err != nil {
+				break
+			}
+		}
 		out.Body = buf[:m]
-		if err != nil {
+		if m < n {
 			out.Trunc = true
 		}
 	default:
